@@ -29,7 +29,7 @@ Traces == JsonDeserialize(IOEnv.TRACE_FILE)
 VARIABLES tid, pc, prop, impl
 vars == <<tid, pc, prop, impl>>
 
-P == INSTANCE DestripePipeline WITH NCH <- 384, NB <- 6, Variant <- "fixed",
+P == INSTANCE DestripePipeline WITH NCH <- 384, NB <- 6, Variant <- "fixed", NGRP <- 3,
         labels <- <<>>, stage <- "", infl <- {}, spatialIn <- {}, spatialOut <- {},
         fn <- "", settings <- <<>>, collection <- <<>>, todo <- {}, children <- <<>>
 
